@@ -11,10 +11,11 @@ na_reasons = {}
 p = os.path.join(V, "not_applicable.json")
 if os.path.exists(p):
     na_reasons = json.load(open(p))
+claimed = set(open(os.path.join(V, "claimed.txt")).read().split())
 checks, na = [], []
 for i in ids:
     c = PROPS.get(i)
-    if c is None or c.get("disabled"):
+    if c is None or c.get("disabled") or i not in claimed:
         na.append(dict(property_id=i, reason=na_reasons.get(i, "check not built yet in this round; see DESIGN.md section 4 for the planned generator and oracle")))
         continue
     m = c.get("manifest", {})
